@@ -137,6 +137,9 @@ MUTANTS = [
     ("hmm-bwd-noflip", ["C37"], HMM, r"jnp.flip\(forward_filters, axis=0\),", "forward_filters,"),
     ("hmm-result-flip", ["C37"], HMM, r"samples = jnp.flip\(samples\)", "samples = jnp.flip(prior)"),
     ("hmm-bwd-unnormalised-key", ["C37"], HMM, r"sample = jax.random.categorical\(key, backward_distribution\)", "sample = jax.random.categorical(prev, backward_distribution)"),
+    ("hmm-bwd-transpose", ["C37"], HMM, r"transition_n\[:, prev_sample\]", "transition_n[prev_sample, :]"),
+    ("hmm-fwd-wrong-axis", ["C37"], HMM, r"prev.reshape\(-1, 1\) \+ transition_n,\n                axis=0,", "prev + transition_n,\n                axis=-1,"),
+    ("hmm-density-transpose", ["C37"], HMM, r"\[latent, obs\]", "[obs, latent]"),
     ("subtrace-fold-order", ["C34", "C38"], GF, r"lambda tr, addr: tr.get_inner_trace\(addr\), addresses, self", "lambda tr, addr: tr.get_inner_trace(addr), reversed(addresses), self"),
 ]
 
@@ -169,10 +172,9 @@ TWINS = [
     ("adev-parallel-rename", ADP, r"\bret_tangents\b", "kont_tangents"),
     ("adev-reinforce-commute", ADP, r"out_tangent \+ \(out_primal \* lp_tangent\)", "(lp_tangent * out_primal) + out_tangent"),
     ("adev-core-rename", ADC, r"\btangent_outs\b", "t_outs"),
-    ("hmm-commute-fwd", HMM, r"prev \+ transition_n,", "transition_n + prev,"),
+    ("hmm-commute-fwd", HMM, r"prev.reshape\(-1, 1\) \+ transition_n,", "transition_n + prev.reshape(-1, 1),"),
     ("hmm-commute-bwd", HMM, r"backward_distribution = forward_filter \+ transition_n\[:, prev_sample\]", "backward_distribution = transition_n[:, prev_sample] + forward_filter"),
     ("hmm-cond-polarity", HMM, r"check = index == 0\n        alpha = jax.lax.cond\(check, init_branch, t_branch, prev, obs\)", "alpha = jax.lax.cond(index != 0, t_branch, init_branch, prev, obs)"),
-    ("hmm-transpose-symmetric", HMM, r"transition_n\[:, prev_sample\]", "transition_n[prev_sample, :]"),
     ("docstring-edit", SCAN, r"Prepends the initial accumulator value", "Prepends the first accumulator value"),
     ("comment-shift", DIST, r"(class Distribution\(Generic\[R\], GenerativeFunction\[R\]\):)", "# moved comment\n\n\n\\1"),
 ]
